@@ -170,6 +170,11 @@ pub fn expect_std(h: &StdHeader, scalability: bool, prev: &Inherited) -> Expecte
         options |= O_FREEZE;
     }
     let dbq = ["Five", "Six", "Seven", "Eight"][(h.dbquant & 3) as usize];
+    if h.quant == 0 {
+        // PQUANT 0 is outside the quantizer's legal range 1..=31: whether such a header is reported
+        // or rejected is not fixed by the property
+        return Expected::Excluded("PQUANT 0 (outside the legal range 1..=31)");
+    }
     match &h.kind {
         Kind::Baseline(b) => {
             if b.fmt == 0 {
@@ -497,7 +502,7 @@ impl SorHeader {
 pub fn check_sor(h: &SorHeader, scal: bool) -> Result<&'static str, String> {
     let mut w = BitWriter::new();
     h.write(&mut w);
-    let exp = Expected::Fields(h.expect());
+    let exp = if h.quant == 0 { Expected::Excluded("PQUANT 0 (outside the legal range 1..=31)") } else { Expected::Fields(h.expect()) };
     let parsed = judge(&w, options(Mode::Sorenson, scal), None, &exp, &|| format!("Sorenson header {:?}", h))?;
     Ok(parsed.class)
 }
@@ -1212,7 +1217,7 @@ pub fn run(ctx: &Ctx) -> i32 {
             rule: "Headers are written by the harness from a header AST per clause 5.1 / the Sorenson layout, followed by a 32-bit sentinel, and parsed with parser::decode_picture. Oracle: every public field equals the encoded value, the sentinel is the next thing read (exact consumption), UFEP=0 headers report the OPPTYPE modes in force (chains of up to four headers, each parsed with its parsed predecessor) and no format, GN != 0 gives 'not a picture', every wrong marker / forbidden value is rejected without consuming. Exhaustive single-field sweeps (all 256x256 Sorenson 8-bit sizes, all 32 PTYPE low-bit patterns, all 2^10 OPPTYPE mode patterns x 8 formats, all 512x288 PWI/PHI pairs, all TRP, CPCFC x ETR, ...) plus tape-generated cross products with and without a previous header; decoded_picture_reports_header checks TR/type/PQUANT/deblocking flag/size of get_last_picture() incl. PLUSPTYPE custom formats and a following format-less P picture. Non-trivial = every judged header (accepted-and-compared or rejected); distinct by header bits.",
             assumptions: vec![
                 "clause 5.1 field layout as recalled (cross-read against FFmpeg's h263 header parser)".into(),
-                "excluded from assertion (counted as class 'excluded'): RPR bit and BCI=1 (UnimplementedDecoding by design), layer numbers without PLUSPTYPE, PHI outside 1..=288".into(),
+                "excluded from assertion (counted as class 'excluded'): RPR bit and BCI=1 (UnimplementedDecoding by design), layer numbers without PLUSPTYPE, PHI outside 1..=288, PQUANT 0".into(),
                 "ETR is asserted only under a custom clock signalled in the same header".into(),
             ],
             exhaustive: false,
